@@ -89,6 +89,39 @@ def run(prog, rep, tier='quick'):
                                           loc(cls.mod, cls.node))
                         else:
                             check_sink(rep, 'scale-once', cls.qname, label + ', second evaluation', 'psd', psd2, exp, loc(cls.mod, cls.node))
+                    if parity == 'even' and not cplx:
+                        # the sampling rate assigned AFTER construction is the one every later estimate uses: the object is built
+                        # with a rate measured in its own unit (component sy), `sampling` is then assigned the context's rate, and
+                        # the next estimate must carry the new rate's exponents and none of the old one's
+                        from ..core import St, PathEnd
+                        kw3 = dict(kw)
+                        old_rate = C.sampling()
+                        old_rate.deg = dict(old_rate.deg)
+                        old_rate.deg['hz'], old_rate.deg['sy'] = F(0), F(1)
+                        old_rate.fsf = None
+                        old_rate.taint = frozenset(['sampling0'])
+                        kw3['sampling'] = old_rate
+                        ref3, obj3, itp3, ok3 = C.run_class(prog, cls.mod, cls.name, [], kw3)
+                        nctx += 1
+                        lab3 = label + ', sampling assigned after construction'
+                        if ok3 and obj3 is not None and not blocked(rep, 'scale-once', cls.qname, lab3, itp3):
+                            st3 = St({}, itp3.final_heap)
+                            callm = cls.find_method('__call__')
+                            try:
+                                new_rate = C.sampling()
+                                new_rate.differs_from = frozenset([old_rate.uid])
+                                itp3.setattr_ref(ref3, 'sampling', new_rate, st3, cls.node)
+                                itp3.call_function(callm, [ref3], {}, st3, callm.node)
+                                o3 = st3.heap.get(ref3.oid)
+                            except PathEnd:
+                                o3 = None
+                            psd3 = o3.f.get(PSD_FIELD) if o3 is not None else None
+                            if psd3 is None or (isinstance(psd3, Const) and psd3.v is None):
+                                rep.undecided('scale-once', cls.qname, lab3, 'no estimate stored after the assignment', loc(cls.mod, cls.node))
+                            else:
+                                exp3 = dict(exp)
+                                exp3['sy'] = F(0)
+                                check_sink(rep, 'scale-once', cls.qname, lab3, 'psd', psd3, exp3, loc(cls.mod, cls.node))
                     # frequency axis of the same object
                     if scale is False and parity == 'even':
                         sp_ = prog.cls('psd', 'Spectrum')
